@@ -1,0 +1,9 @@
+//go:build verif
+
+package mailbox
+
+import "context"
+
+func contextWithCancel() (context.Context, func()) {
+	return context.WithCancel(context.Background())
+}
